@@ -1,57 +1,165 @@
 /-
 C06 — VM values behave as immutable byte strings.
 
-Memory model: `heapMemF grow` (Model/VM/Heap.lean) — Go slices over a heap of backing
-arrays, `append` in place when the capacity allows, sub-slices keep the capacity; the same
-generic VM (`Model/VM/*`) runs on it, with the program, both stacks and every context byte
-string being slices.  The reference is the value instance `valueMem`.
+Memory model: `heapMem grow` (Model/VM/Heap.lean) — Go slices over a heap of backing arrays
+(`(array, off, len, cap)` headers, sub-slices keep the capacity) — on which the same generic
+VM (`Model/VM/*`) runs, with the program, both stacks and every context byte string being
+slices.  The reference is the value instance `valueMem` (items are immutable byte strings).
 
-On the code as it is the property is FALSE (F1, reproduced on the real `vm.Verify` by the
-harness on every run): the three full statements below are refuted by concrete programs.
-What is proved for ALL programs, contexts, layouts, growth policies and gas limits: the
-memory is only ever *extended* — no existing array changes or moves — unless an `append`
-fits the capacity of its first operand; so an execution in which no in-place append occurs
-leaves every caller-owned array untouched.
+Since fix a6a6f5b7 (CAT / CATPUSHDATA build their result in a fresh array) no opcode handler
+writes into an existing array any more, and the property holds at full strength — for every
+growth policy, program, context, memory layout, gas limit and fuel:
+
+* `heap_refines_value`  : reading all slices back as byte strings, `Verify` on the heap gives
+  exactly the result, error class, gas and final stacks of `Verify` on values;
+* `args_unchanged`      : every array that existed when `Verify` was called is unchanged;
+* `layout_independent`  : two layouts of the same byte values give the same answer;
+* `items_independent`   : no step changes what any existing valid slice reads;
+* `no_inplace_append`   : the instrumented heap never records an in-place append.
 -/
 import BytomModel.Lemmas.VMMemRun
-import BytomModel.Lemmas.VMHeap
+import BytomModel.Lemmas.VMRefineRun
 namespace BytomModel.Props.C06
 open BytomModel.VM
 
-/-! ### what holds: without an in-place append the heap only grows -/
+/-! ### caller memory -/
 
-/-- one small step of the machine extends the heap (or an in-place append is recorded) -/
-theorem heap_only_grows_partial (grow : Nat → Nat → Nat) (ctx : Context Slice)
-    (m m' : Machine FHeap Slice) (h : smallStep (heapMemF grow) ctx m = .inl m') :
-    HeapExt m.mem m'.mem := by
-  have := smallStep_memR (heapExt_rel grow) ctx m
+/-- one small step only extends the heap: no existing array changes or moves -/
+theorem heap_only_grows (grow : Nat → Nat → Nat) (ctx : Context Slice)
+    (m m' : Machine Heap Slice) (h : smallStep (heapMem grow) ctx m = .inl m') :
+    HeapPrefix m.mem m'.mem := by
+  have := smallStep_memR (heapPrefix_rel grow) ctx m
   rw [h] at this
   exact this
 
-/-- **caller memory (partial).**  If `Verify` returns and no `append` wrote in place during
-    the whole execution (flag still `false`), every array that existed when `Verify` was
-    called — the caller's argument, state-data, program and context buffers, however they
-    are laid out — has exactly its old contents. -/
-theorem args_unchanged_partial (grow : Nat → Nat → Nat) (ctx : Context Slice) (fuel : Nat) (h : Heap)
-    (limit : Int) (r : VerifyResult FHeap Slice) (h' : Heap) (f : Frame Slice)
-    (hv : verifyFuel (heapMemF grow) ctx fuel ⟨h, false⟩ limit = some r)
-    (hf : r.final = some (⟨h', false⟩, f)) :
+/-- **caller memory.**  Whatever the program, arguments, layout and limit: when `Verify`
+    returns, every array that existed at the call — the caller's argument, state-data, program
+    and context buffers, including any spare capacity and guard bytes — has its old contents. -/
+theorem args_unchanged (grow : Nat → Nat → Nat) (ctx : Context Slice) (fuel : Nat) (h : Heap)
+    (limit : Int) (r : VerifyResult Heap Slice) (h' : Heap) (f : Frame Slice)
+    (hv : verifyFuel (heapMem grow) ctx fuel h limit = some r) (hf : r.final = some (h', f)) :
     ∀ i, i < h.arrays.size → h'.getArr i = h.getArr i := by
   intro i hi
-  have hext := verifyFuel_memR (heapExt_rel grow) ctx fuel ⟨h, false⟩ limit r ⟨h', false⟩ f hv hf
-  exact HeapExt_getArr ⟨h, false⟩ ⟨h', false⟩ hext rfl i hi
+  have hext := verifyFuel_memR (heapPrefix_rel grow) ctx fuel h limit r h' f hv hf
+  exact hext.getArr i hi
 
-/-- the in-place flag is exactly "some append fitted the capacity": a fresh allocation never
-    sets it, and `append` sets it iff `len a + len b ≤ cap a` with `b` non-empty -/
-theorem flag_meaning (grow : Nat → Nat → Nat) (m : FHeap) (a : Slice) (b : Bytes) :
-    ((heapMemF grow).append m a b).1.inPlace = (m.inPlace || (!b.isEmpty && decide (a.len + b.length ≤ a.cap))) ∧
-    ∀ c e, ((heapMemF grow).fresh m c e).1.inPlace = m.inPlace :=
-  ⟨rfl, fun _ _ => rfl⟩
+/-- **no operation changes another item**: whatever a valid slice (a stack item, the program,
+    a context string, a caller buffer) reads before a step, it reads after it -/
+theorem items_independent (grow : Nat → Nat → Nat) (ctx : Context Slice)
+    (m m' : Machine Heap Slice) (h : smallStep (heapMem grow) ctx m = .inl m') (x : Slice)
+    (hx : Valid m.mem x) : m'.mem.read x = m.mem.read x :=
+  read_prefix (heap_only_grows grow ctx m m' h) hx
+
+/-- the instrumented heap (`heapMemF`) never records an in-place append -/
+theorem no_inplace_append (grow : Nat → Nat → Nat) (ctx : Context Slice) (fuel : Nat) (h : FHeap)
+    (limit : Int) (r : VerifyResult FHeap Slice) (h' : FHeap) (f : Frame Slice)
+    (hv : verifyFuel (heapMemF grow) ctx fuel h limit = some r) (hf : r.final = some (h', f)) :
+    h'.inPlace = h.inPlace :=
+  (verifyFuel_memR (flagRel_rel grow) ctx fuel h limit r h' f hv hf).1
+
+/-! ### refinement -/
+
+theorem initFrame_abs (h : Heap) (cH : Context Slice) (limit : Int) :
+    (⟨(), initFrame (absCtx h cH) limit⟩ : St Unit Bytes) = absSt ⟨h, initFrame cH limit⟩ := rfl
+
+/-- the initial pushes of `Verify` commute with the abstraction -/
+theorem initPushes_sim (grow : Nat → Nat → Nat) (cH : Context Slice) (h : Heap) (hc : CtxValid h cH) (limit : Int) :
+    ResPP (fun _ s' => initPushes valueMem (absCtx h cH) ⟨(), initFrame (absCtx h cH) limit⟩ = .ok () (absSt s') ∧
+              s'.mem = h ∧ FrameValid s'.mem s'.f)
+          (fun e s' => initPushes valueMem (absCtx h cH) ⟨(), initFrame (absCtx h cH) limit⟩ = .err e (absSt s') ∧
+              s'.mem = h ∧ FrameValid s'.mem s'.f)
+          False (initPushes (heapMem grow) cH ⟨h, initFrame cH limit⟩) := by
+  have hv0 : FrameValid h (initFrame cH limit) := ⟨hc.1, by simp [initFrame], by simp [initFrame]⟩
+  have h1 := pushAll_sim grow true cH.stateData ⟨h, initFrame cH limit⟩ hv0 hc.2.2.2.2.2
+  simp only [if_true] at h1
+  rw [initFrame_abs]
+  unfold initPushes
+  rw [bind_run, bind_run]
+  have hst : (absCtx h cH).stateData = cH.stateData.map h.read := rfl
+  have har : (absCtx h cH).arguments = cH.arguments.map h.read := rfl
+  rw [hst, har]
+  revert h1
+  cases pushAll (pushAlt (heapMem grow)) cH.stateData ⟨h, initFrame cH limit⟩ with
+  | panic => intro h1; exact absurd h1 (by simp)
+  | err e s1 =>
+    intro h1; simp only [ResPP_err] at h1
+    simp only [Res.bindK_err, ResPP_err, h1.1]
+    exact ⟨trivial, h1.2⟩
+  | ok u s1 =>
+    intro h1; simp only [ResPP_ok] at h1
+    obtain ⟨e1, m1, v1⟩ := h1
+    simp only [Res.bindK_ok, e1]
+    have h2 := pushAll_sim grow false cH.arguments s1 v1 (by rw [m1]; exact hc.2.2.2.2.1)
+    simp only [Bool.false_eq_true, if_false] at h2
+    rw [m1] at h2
+    revert h2
+    cases pushAll (fun x => pushItem (heapMem grow) x false) cH.arguments s1 with
+    | panic => intro h2; exact absurd h2 (by simp)
+    | err e s2 =>
+      intro h2; simp only [ResPP_err] at h2
+      simp only [ResPP_err, h2.1]
+      exact ⟨trivial, h2.2.1, h2.2.2⟩
+    | ok u2 s2 =>
+      intro h2; simp only [ResPP_ok] at h2
+      simp only [ResPP_ok, h2.1]
+      exact ⟨trivial, h2.2.1, h2.2.2⟩
+
+/-- **refinement (DESIGN §5 C06).**  For every growth policy, program, context, memory layout
+    with valid slices, gas limit and fuel: reading the slices back as byte strings, the heap
+    run of `Verify` IS the value run — same gasLeft, same error class, same final stacks
+    (and it runs out of fuel exactly when the value run does). -/
+theorem heap_refines_value (grow : Nat → Nat → Nat) (cH : Context Slice) (h : Heap) (hc : CtxValid h cH)
+    (fuel : Nat) (limit : Int) :
+    (verifyFuel (heapMem grow) cH fuel h limit).map absResult
+      = verifyFuel valueMem (absCtx h cH) fuel () limit := by
+  unfold verifyFuel
+  have hvm : (absCtx h cH).vmVersion = cH.vmVersion := rfl
+  rw [hvm]
+  by_cases hver : cH.vmVersion ≠ 1
+  · simp [hver, absResult]
+  · simp only [hver, if_false]
+    have hi := initPushes_sim grow cH h hc limit
+    revert hi
+    cases initPushes (heapMem grow) cH ⟨h, initFrame cH limit⟩ with
+    | panic => intro hi; exact absurd hi (by simp)
+    | err e s1 =>
+      intro hi; simp only [ResPP_err] at hi
+      rw [hi.1]
+      simp [absResult, absSt, absFrame]
+    | ok u s1 =>
+      intro hi; simp only [ResPP_ok] at hi
+      obtain ⟨e1, m1, v1⟩ := hi
+      rw [e1]
+      have hcs : CtxSim s1.mem cH (absCtx h cH) := by rw [m1]; exact ⟨hc, rfl⟩
+      have hrun := runFuel_sim grow cH (absCtx h cH) fuel ⟨s1.mem, s1.f, []⟩ ⟨v1, by simp⟩ hcs
+      have habs : absMachine ⟨s1.mem, s1.f, []⟩ = ⟨(absSt s1).mem, (absSt s1).f, []⟩ := rfl
+      rw [habs] at hrun
+      simp only
+      rw [← hrun.1]
+      cases hr : runFuel (heapMem grow) cH fuel ⟨s1.mem, s1.f, []⟩ with
+      | none => simp
+      | some fin =>
+        cases fin with
+        | panic => simp [absFinal, absResult]
+        | done mem' f e =>
+          simp only [Option.map_some, absFinal]
+          rw [falseResult_abs grow mem' f]
+          cases e <;> simp [absResult, absFrame]
+
+/-- **layout independence.**  Two memory layouts (independent buffers, sub-slices of one
+    shared buffer, spare capacity, guard bytes …) of the same byte values give the same
+    result, error class, gas and final stacks. -/
+theorem layout_independent (grow : Nat → Nat → Nat) (c1 c2 : Context Slice) (h1 h2 : Heap)
+    (hv1 : CtxValid h1 c1) (hv2 : CtxValid h2 c2) (hsame : absCtx h1 c1 = absCtx h2 c2)
+    (fuel : Nat) (limit : Int) :
+    (verifyFuel (heapMem grow) c1 fuel h1 limit).map absResult
+      = (verifyFuel (heapMem grow) c2 fuel h2 limit).map absResult := by
+  rw [heap_refines_value grow c1 h1 hv1, heap_refines_value grow c2 h2 hv2, hsame]
 
 /-- the gas theorems of C07 hold on this memory model as well -/
-theorem heap_satisfies_gas_laws (grow : Nat → Nat → Nat) : MemLaws (heapMemF grow) := heapMemF_laws grow
+theorem heap_satisfies_gas_laws (grow : Nat → Nat → Nat) : MemLaws (heapMem grow) := heapMem_laws grow
 
-/-! ### F1: the full statements are false (concrete witnesses, evaluated by the kernel) -/
+/-! ### the former F1 witnesses now satisfy the property (evaluated by the kernel) -/
 
 def noGrow : Nat → Nat → Nat := fun _ n => n
 
@@ -61,77 +169,32 @@ def hctx (code : Slice) (args : List Slice) : Context Slice :=
     spentOutputID := none, txSigHash := none, checkOutput := none,
     verifySig := fun _ _ _ => false, sha256 := fun _ => [], sha3 := fun _ => [], ripemd160 := fun _ => [] }
 
-/-- caller memory: array 0 = program `DUP 1 LEFT DATA_1 'X' CAT`, array 1 = the argument "abcd" -/
+/-- array 0 = program `DUP 1 LEFT DATA_1 'X' CAT`, array 1 = the caller's argument "abcd" -/
 def f1Heap : Heap := ⟨#[[0x76, 0x51, 0x80, 0x01, 0x58, 0x7e], [0x61, 0x62, 0x63, 0x64]]⟩
 def f1Ctx : Context Slice := hctx ⟨0, 0, 6, 6⟩ [⟨1, 0, 4, 4⟩]
 
-/-- "running a program never changes the caller's argument bytes" -/
-def caller_memory_unchanged_full : Prop :=
-  ∀ (ctx : Context Slice) (fuel : Nat) (h : Heap) (limit : Int) (i : Nat) (a : Bytes),
-    ((verifyFuel (heapMemF noGrow) ctx fuel ⟨h, false⟩ limit).bind fun r =>
-        r.final.map fun p => p.1.heap.getArr i) = some a →
-    i < h.arrays.size → a = h.getArr i
+/-- the caller's "abcd" is still "abcd" (it was "aXcd" before the fix) and the stack is ["aX", "abcd"] -/
+example :
+    ((verifyFuel (heapMem noGrow) f1Ctx 12 f1Heap 10000).bind fun r =>
+        r.final.map fun p => (p.1.getArr 1, p.2.data.map p.1.read))
+      = some ([0x61, 0x62, 0x63, 0x64], [[0x61, 0x58], [0x61, 0x62, 0x63, 0x64]]) := by decide +kernel
 
-/-- the caller's "abcd" has become "aXcd" -/
-theorem f1_caller_witness :
-    ((verifyFuel (heapMemF noGrow) f1Ctx 12 ⟨f1Heap, false⟩ 10000).bind fun r =>
-        r.final.map fun p => p.1.heap.getArr 1) = some [0x61, 0x58, 0x63, 0x64] := by decide +kernel
-
-theorem caller_memory_unchanged_full_refuted : ¬ caller_memory_unchanged_full := by
-  intro h
-  have := h f1Ctx 12 f1Heap 10000 1 _ f1_caller_witness (by decide)
-  revert this
-  decide
-
-/-- the final data stack (top first) read back as byte strings -/
-def finalStack {μ ι : Type} (M : MemOps μ ι) (r : Option (VerifyResult μ ι)) : Option (List Bytes) :=
-  r.bind fun r => r.final.map fun p => p.2.data.map (M.read p.1)
-
-/-- program `DATA_4 "abcd" DUP 1 LEFT DATA_1 "X" CAT`, no arguments: everything the VM
-    touches was allocated by the VM itself -/
+/-- `DATA_4 "abcd" DUP 1 LEFT DATA_1 "X" CAT` -/
 def f1Prog : Bytes := [0x04, 0x61, 0x62, 0x63, 0x64, 0x76, 0x51, 0x80, 0x01, 0x58, 0x7e]
 
-def vctx (code : Bytes) : Context Bytes :=
-  { vmVersion := 1, code := code, stateData := [], arguments := [], entryID := [],
-    txVersion := some 1, blockHeight := none, assetID := none, amount := none, destPos := none,
-    spentOutputID := none, txSigHash := none, checkOutput := none,
-    verifySig := fun _ _ _ => false, sha256 := fun _ => [], sha3 := fun _ => [], ripemd160 := fun _ => [] }
-
-/-- reference semantics: the stack ends as ["aX", "abcd"] -/
-theorem f1_value_result :
-    finalStack valueMem (verifyFuel valueMem (vctx f1Prog) 12 () 10000)
+/-- the other stack item stays "abcd" (it became "aXcd" before the fix) -/
+example :
+    ((verifyFuel (heapMem noGrow) (hctx ⟨0, 0, 11, 11⟩ []) 12 ⟨#[f1Prog]⟩ 10000).bind fun r =>
+        r.final.map fun p => p.2.data.map p.1.read)
       = some [[0x61, 0x58], [0x61, 0x62, 0x63, 0x64]] := by decide +kernel
 
-/-- the code as it is: ["aX", "aXcd"] — CAT rewrote the item the prefix was cut from -/
-theorem f1_heap_result :
-    finalStack (heapMemF noGrow)
-        (verifyFuel (heapMemF noGrow) (hctx ⟨0, 0, 11, 11⟩ []) 12 ⟨⟨#[f1Prog]⟩, false⟩ 10000)
-      = some [[0x61, 0x58], [0x61, 0x58, 0x63, 0x64]] := by decide +kernel
-
-/-- "an operation on one stack item never changes another item / the result depends only on
-    the byte values": the heap run of a program laid out in fresh memory reads back as the
-    value run -/
-def items_independent_full : Prop :=
-  ∀ (code : Bytes) (fuel : Nat) (limit : Int),
-    finalStack (heapMemF noGrow)
-        (verifyFuel (heapMemF noGrow) (hctx ⟨0, 0, code.length, code.length⟩ []) fuel ⟨⟨#[code]⟩, false⟩ limit)
-      = finalStack valueMem (verifyFuel valueMem (vctx code) fuel () limit)
-
-theorem items_independent_full_refuted : ¬ items_independent_full := by
-  intro h
-  have := h f1Prog 12 10000
-  rw [show f1Prog.length = 11 from rfl, f1_heap_result, f1_value_result] at this
-  revert this
-  decide
-
-/-! ### the hypothesis of the partial theorem is satisfiable on a non-trivial run:
-`"ab" "cd" CAT` grows into a new array (capacity 2 < 4), the flag stays false and the
-caller's program bytes are intact. -/
-
-example :
-    ((verifyFuel (heapMemF noGrow) (hctx ⟨0, 0, 7, 7⟩ []) 8
-        ⟨⟨#[[0x02, 0x61, 0x62, 0x02, 0x63, 0x64, 0x7e]]⟩, false⟩ 10000).bind fun r =>
-      r.final.map fun p => (p.1.inPlace, p.2.data.map (p.1.heap.read))) = some (false, [[0x61, 0x62, 0x63, 0x64]]) := by
-  decide +kernel
+/-- the hypotheses of the theorems are satisfiable: a valid two-array layout -/
+example : CtxValid f1Heap f1Ctx := by
+  refine ⟨by unfold Valid; decide, by unfold Valid; decide, by simp [f1Ctx, hctx], by simp [f1Ctx, hctx], ?_,
+    by simp [f1Ctx, hctx]⟩
+  intro x hx
+  simp [f1Ctx, hctx] at hx
+  subst hx
+  unfold Valid; decide
 
 end BytomModel.Props.C06
